@@ -5,6 +5,7 @@
 -/
 import Z80.Model.Step
 import Z80.Model.Dasm
+import Z80.Spec.Timing
 open Z80
 
 /-! ### parsing / printing helpers -/
@@ -272,8 +273,31 @@ def handle (st : DState) (line : String) : DState × String :=
   | "S" :: rest => match cmdS st rest with | some s => (s, "ok") | none => bad
   | "P" :: rest => match cmdP st rest with | some s => (s, "ok") | none => bad
   | ["X"] =>
+    let pre := st.cpu.arch
     let (c, cyc) := step st.cpu
-    ({ st with cpu := c }, replyState c cyc)
+    let info := (stepArch pre).2.2
+    let extra :=
+      match info with
+      | none => " doc=1 io=0 zt=4 cls=x"                         -- halted idle step
+      | some i =>
+        let doc := !pre.wakes && Spec.documented i.page i.d.op && !Spec.io i.page i.d.op
+        let zt : Option Nat :=
+          if Spec.isBlockRepeat i.d.instr then
+            let k := (pre.reg.getBC - c.arch.reg.getBC).toNat
+            some (Spec.blockTiming (if k == 0 then 65536 else k))
+          else Spec.timing i.page i.d.instr i.tk
+        " doc=" ++ b01 doc ++ " io=" ++ b01 (Spec.io i.page i.d.op) ++ " zt=" ++
+          (match zt with | some n => toString n | none => "-") ++
+          " cls=" ++ (match i.d.instr with | .bit _ _ => "bit" | .unknown => "unk" | _ => "x")
+    ({ st with cpu := c }, replyState c cyc ++ extra)
+  | ["SP16", w, v] => match parseHex w, h16 v with
+    | some w, some v =>
+      let r16 : R16 := match w with | 0 => .bc | 1 => .de | 2 => .hl | 3 => .ix | 4 => .iy | _ => .af
+      let a := st.cpu.arch
+      let a' := { a with reg := a.reg.set16 r16 v }
+      let c := { st.cpu with arch := a' }
+      ({ st with cpu := c }, replyState c 0 ++ " " ++ hex4 (a'.reg.get16 r16))
+    | _, _ => bad
   | ["T", e] =>
     let el := if e == "-" then some none else (parseHex e).map (fun n => some (UInt32.ofNat n))
     match el with
